@@ -32,6 +32,7 @@ type PropConfig struct {
 	Assumptions   []string `json:"assumptions"`
 	DesignRef     string   `json:"design_ref"`
 	QuickTimeout  int      `json:"quick_timeout_s"`
+	SliceBoundLog2 int     `json:"slice_len_bound_log2"`
 	Bounded       []BoundedCfg `json:"bounded"`
 	MinObligations int     `json:"min_obligations"`
 	Batch          bool    `json:"batch"`           // many small obligations per function instance: incremental scripts
@@ -171,6 +172,9 @@ func run() int {
 	}
 	tLoad := time.Now()
 	eng, err := vc.Load(*repoDir, cfg.Packages, extra, overlay)
+	if err == nil && cfg.SliceBoundLog2 > 0 {
+		eng.SliceBoundLog2 = cfg.SliceBoundLog2
+	}
 	if err != nil {
 		// a tree that does not load is not a property violation; the harness only calls us on trees that build
 		return fatal("loading %v: %v", cfg.Packages, err)
